@@ -48,8 +48,20 @@ REQUIRED_THEOREMS = [
     "insert_conserves_compiled_ghost_eps", "insert_conserves_compiled_ghost2_eps",
     "insert_interpreted_eq_compiled_eps", "insert_interpreted_eq_compiled2_eps", "insert_interpreted_eq_compiled3_eps",
     "driver_floor_instance_eq",
+    # Props/C16Gap.lean (gap round): ghost-mode inserter on 3 axes, interpolate_to_grid, bc mode on the padded array
+    # the conditions define (both faces, value / derivative, corner square), multi-axis statements at the real eps
+    "insert_compiled_ghost_integral3", "insert_conserves_compiled_ghost3", "insert_conserves_compiled_ghost3_eps",
+    "interpolate_to_grid_spec", "interpolate_to_grid_same_grid", "interpolate_to_grid_same_grid2",
+    "interpolate_to_grid_same_grid3", "interpolate_to_grid_affine", "interpolate_to_grid_outside",
+    "padFull1", "padFull2_x", "padFull2_y", "padFull3_x", "padFull2_corner",
+    "bc_mode_approaches_imposed_condition", "bc_mode_approaches_imposed_condition2",
+    "bc_mode_approaches_imposed_condition2_y", "bc_mode_approaches_imposed_condition3",
+    "bc_mode_approaches_imposed_condition3_y", "bc_mode_approaches_imposed_condition3_z",
+    "bc_mode_approaches_imposed_condition_eps", "bc_mode_approaches_imposed_condition2_eps",
+    "bc_mode_corner_square2", "bc_mode_corner_square_value_on_face", "bc_mode_corner_square_misses_imposed_value",
+    "periodic_seam_both2_eps", "periodic_seam_all3_eps", "domain_corner2_eps", "boundary_strip_nearest2_eps",
 ]
-EXTRA_PROP_FILES = ["C16Eps"]
+EXTRA_PROP_FILES = ["C16Eps", "C16Gap"]
 RULE = ("(a) lattice sweep: small dyadic Cartesian grids with 1 and 2 axes, every periodicity pattern, every point of "
         "a regular lattice of cell coordinates from 2 cells below to 1 cell above the domain (all integer / half-integer "
         "ties, every branch, points exactly on the boundary included for the correspondence), compared exactly; "
@@ -1304,6 +1316,32 @@ def evaluate(ctx, ev, spec, axes, meta, sides, res):
                                      key={"op": "interp_bc", "symptom": "ghost-cell-value", "ghost_axes": str(sum(
                                          1 for i, n in zip(idx, shape) if i in (0, n + 1)))})
                     break
+        # the model of the padded array (`padFull`: ghost cells as a function of the imposed conditions, edges / corners
+        # the mean of the adjacent ghost cells) against the real `_data_full` on every cell the interpolator can read
+        if real_full:
+            pad_cells = list(readable_ghost_cells(axes)) + list(itertools.product(*[range(1, n + 1) for n in shape]))
+            pad_case = small_case(spec, "pad_bc", bc=spec["bc"])
+            ctx.count(count_key(spec, "pad_bc", bc=spec["bc"]), nontrivial=nontrivial_field, leg=f"pad_bc/{mode}")
+            ctx.hist("pad_bc", f"{len(shape)} axes/" + ("corner cells" if sum(1 for sd in sides if sd is not None) >= 2
+                                                          else "faces only"))
+
+            def cb_pad(st, val, real_full=real_full, pad_case=pad_case, pad_cells=pad_cells, fshape=fshape, btol=btol):
+                if st != "ok":
+                    ctx.disagree("pad_bc", pad_case, "model error " + str(val), None)
+                    return
+                ctx.impl_traces += 1
+                for c, (rf, flat) in enumerate(zip(real_full, val)):
+                    m = np.array([float(fr(v)) for v in flat], dtype=float).reshape(fshape)
+                    for idx in pad_cells:
+                        if far(m[idx] - rf[idx], btol):
+                            ctx.hist("model_tie_disagreement", "pad_bc")
+                            ctx.disagree("pad_bc", dict(pad_case, ghost_cell=list(idx), component=c), float(m[idx]),
+                                         float(rf[idx]), "padFull differs from _data_full after set_ghost_cells(bc, "
+                                         "set_corners=True)")
+                            return
+            ev.ask("c16.pad", {"axes": jaxes(axes), "sides": [None if sd is None else [[k_, q(v_)] for k_, v_ in sd]
+                                                              for sd in sides],
+                               "data": [[q(v) for v in c] for c in comps]}, cb_pad)
         for with_fill in (False, True):
             if with_fill not in res["interp_bc"]:
                 continue
@@ -1505,6 +1543,26 @@ def evaluate(ctx, ev, spec, axes, meta, sides, res):
                 if not ok:
                     ctx.disagree(leg, case, mvals, real, "interpolate_to_grid differs from interpN at the new cell centres")
             ev.ask("c16.interp", req_interp(axes, shp, data, gp_ref, ghost=ghost, fill=None if name == "nofill" else spec["fill"]), cb)
+            if route == "same-class" and len(data) == 1:
+                # the model of interpolate_to_grid itself (`interpToGrid`: the centres of the new cells are computed by
+                # the model from the description of the target grid)
+                def cb2(st, val, leg=leg, real=real, case=case, data=data):
+                    if st != "ok":
+                        ctx.disagree(leg + "_model", case, "model error " + str(val), None)
+                        return
+                    ctx.impl_traces += 1
+                    if val is None:
+                        ok = real == "ERR:DomainError"
+                    else:
+                        ok = (not isinstance(real, str)) and len(real) == len(val) and \
+                            all(abs(float(fr(m)) - r) <= TOL * scale_of(data, spec["fill"] or 0) for m, r in zip(val, real))
+                    if not ok:
+                        ctx.hist("model_tie_disagreement", leg + "_model")
+                        ctx.disagree(leg + "_model", case, val, real, "interpolate_to_grid differs from interpToGrid")
+                ctx.hist("to_grid", "interpToGrid/" + name)
+                ev.ask("c16.togrid", {"eps": q(EPS), "ghost": ghost, "fill": None if name == "nofill" else q(spec["fill"]),
+                                      "axes": jaxes(axes), "shape": list(shp), "data": [q(v) for v in data[0]],
+                                      "axes2": jaxes(grid_axes(spec["grid2"]))}, cb2)
 
     # ---------------- insert ----------------------------------------------------------------
     vol = res["vol"]
